@@ -8,8 +8,8 @@ open BbRe.Sched BbRe.SchedTree BbRe.Lemmas.SchedInv
 /-! ### `Execute`, `WaitExecution` -/
 
 theorem PrioOK.withIncExec {ts : TState} (h : PrioOK ts) (q : ScqId) (p : List Nat) (w : WKey) (now : Nat) :
-    PrioOK { ts with nodes := incExec ts.nodes q p w now } :=
-  NAll.incExec (P := NodeOK ts.prioOf) h (nodeOK_qp _) q p w now
+    PrioOK { ts with nodes := incExecR ts.legacyPrio ts.prioOf ts.nodes q p w now } :=
+  NAll.incExecR (P := NodeOK ts.prioOf) h (nodeOK_qp _) (nodeOK_rp _) _ q p w now
 
 theorem PrioOK.withEnqueue {ts : TState} (h : PrioOK ts) (q : ScqId) (p : List Nat) (o : Nat) :
     PrioOK { ts with nodes := enqueueOp ts.prioOf ts.nodes q p o } :=
